@@ -1084,7 +1084,13 @@ class Component(composites.Composite, metaclass=ComponentType):
             Tc = self.temperatureInC
 
         dLL = self.material.linearExpansionFactor(Tc=Tc, T0=T0)
-        if not dLL and abs(Tc - T0) > self._TOLERANCE:
+        # no expansion between two different temperatures and none relative to the material's own reference:
+        # there is no correlation (a flat stretch of a tabulated one has dLL == 0 at a non-zero expansion percent)
+        if (
+            not dLL
+            and abs(Tc - T0) > self._TOLERANCE
+            and not self.material.linearExpansionPercent(Tc=Tc)
+        ):
             runLog.error(
                 "Linear expansion percent may not be implemented in the {} material class.\n"
                 "This method needs to be implemented on the material to allow thermal expansion."
